@@ -15,7 +15,6 @@ import (
 	"fmt"
 	"os"
 	"path/filepath"
-	"sort"
 	"strings"
 	"sync"
 
@@ -462,7 +461,7 @@ type event struct {
 	r result
 }
 
-var concOps, concErrs, concReturns, concOverlap int
+var concOps, concErrs, concReturns int
 
 func runConcOnce(c *vh.Ctx, cs Case) bool {
 	if err := store.VerifC23Clear(); err != nil {
@@ -484,7 +483,6 @@ func runConcOnce(c *vh.Ctx, cs Case) bool {
 	close(startc)
 	wg.Wait()
 
-	before := len(c.Rep.Failures)
 	a := &acct{}
 	// queueings first: the accounting bound is on totals (a retrieval may only
 	// return what some queue call wrote; calls that failed wrote nothing)
@@ -531,9 +529,6 @@ func runConcOnce(c *vh.Ctx, cs Case) bool {
 	r2 := apply(drain)
 	if len(r2.txs) != 0 {
 		c.Fail("retrieve-duplicate", "a second full retrieval returned transactions again", cs)
-	}
-	if before == len(c.Rep.Failures) {
-		return any
 	}
 	return any
 }
@@ -652,15 +647,15 @@ func corpus() []Case {
 	}
 	return []Case{
 		{Mode: "seq", Ops: []Op{s(0, 0), rt(1), g(0)}},                                   // store only: never retrieved
-		{Mode: "seq", Ops: []Op{s(0, 1), s(0, 2), g(0), q(0, 2), g(0), rt(1), rt(1)}},   // first store wins, queue refreshes
-		{Mode: "seq", Ops: []Op{q(0, 0), q(0, 1), q(0, 0), rt(10), rt(10)}},             // deduplicated queueing
-		{Mode: "seq", Ops: []Op{q(0, 0), rt(1), g(0), q(0, 1), rt(1), g(0)}},            // re-queue after retrieval
-		{Mode: "seq", Ops: []Op{q(0, 0), rm(0), g(0), rt(5), s(0, 1), rt(5)}},           // removal, stale record, store
-		{Mode: "seq", Ops: []Op{q(0, 0), rm(0), q(0, 1), rt(5), rt(5)}},                 // two records of one tx: returned once
-		{Mode: "seq", Ops: []Op{q(0, 0), rm(0), s(0, 2), q(0, 1), rt(1), rt(1), g(0)}},  // limit cuts between the two records
+		{Mode: "seq", Ops: []Op{s(0, 1), s(0, 2), g(0), q(0, 2), g(0), rt(1), rt(1)}},    // first store wins, queue refreshes
+		{Mode: "seq", Ops: []Op{q(0, 0), q(0, 1), q(0, 0), rt(10), rt(10)}},              // deduplicated queueing
+		{Mode: "seq", Ops: []Op{q(0, 0), rt(1), g(0), q(0, 1), rt(1), g(0)}},             // re-queue after retrieval
+		{Mode: "seq", Ops: []Op{q(0, 0), rm(0), g(0), rt(5), s(0, 1), rt(5)}},            // removal, stale record, store
+		{Mode: "seq", Ops: []Op{q(0, 0), rm(0), q(0, 1), rt(5), rt(5)}},                  // two records of one tx: returned once
+		{Mode: "seq", Ops: []Op{q(0, 0), rm(0), s(0, 2), q(0, 1), rt(1), rt(1), g(0)}},   // limit cuts between the two records
 		{Mode: "seq", Ops: []Op{q(0, 0), q(1, 0), q(2, 0), rt(0), rt(-1), rt(2), rt(2)}}, // limits 0, negative, partial
-		{Mode: "seq", Ops: []Op{q(0, 0), q(1, 1), rm(many...), g(0), g(1), rt(9)}},      // batched removal
-		{Mode: "seq", Ops: []Op{rt(3), rm(), g(5)}},                                       // empty store
+		{Mode: "seq", Ops: []Op{q(0, 0), q(1, 1), rm(many...), g(0), g(1), rt(9)}},       // batched removal
+		{Mode: "seq", Ops: []Op{rt(3), rm(), g(5)}},                                      // empty store
 		{Mode: "seq", Pre: []Op{{K: "rawq", P: 0, Ts: 1}, {K: "rawq", P: 1, Ts: 2}, {K: "rawo", P: 1}},
 			Ops: []Op{q(0, 0), rt(10), rt(10)}}, // the orphan records of storage/cache_coverage_test.go
 		{Mode: "seq", Pre: []Op{{K: "rawp", P: 0, V: -1}}, Ops: []Op{g(0), s(0, 0), g(0), q(1, 0), rt(5), q(0, 1), g(0), rt(5)}},
@@ -703,7 +698,6 @@ func main() {
 	for i := 0; i < nconc; i++ {
 		run(c, genConc(rc))
 	}
-	_ = sort.Ints
 	c.Note(fmt.Sprintf("concurrent part: %d calls from 8 goroutines, %d returned a transaction-conflict error (no effect), %d transactions returned by racing retrievals",
 		concOps, concErrs, concReturns))
 	c.Finish()
